@@ -42,4 +42,29 @@ def powner (env : Env) (v : Stmt → Entry) (root : Mod) (O : Stmt) (subs : List
 def nameKws : List String :=
   ["rpc", "notification", "list", "leaf-list", "leaf", "container", "choice", "anyxml", "anydata"]
 
+
+/-! ### nested includes -/
+
+/-- The entry of a part of a split with nested includes, as goyang's depth-first conversion builds
+it, over the values `v`: the part's own field steps before the include step; then, for every
+submodule statement `Y` its include statements resolve to (`tgt X`, in order) that has not been
+started yet (`S`: the names of the started submodules), `Y`'s entry — converted the same way, `Y`
+marked as started first — merged; then the part's own remaining field steps.  Returns the entry and
+the names started afterwards.  Recursion on fuel (the nesting depth). -/
+def ppart (env : Env) (v : Stmt → Entry) (root : Mod) (tgt : Stmt → List Stmt) : Nat → List String → Stmt → Entry × List String
+  | 0, S, X => (errorEntry root X "out-of-fuel", S)
+  | f + 1, S, X =>
+    let e1 := (pfold env v root X preFields (e0 root X, {})).1
+    let r := (tgt X).foldl (fun (acc : Entry × List String) Y =>
+      if acc.2.contains Y.arg then acc
+      else
+        let q := ppart env v root tgt f (acc.2 ++ [Y.arg]) Y
+        (acc.1.merge none q.1, q.2)) (e1, S)
+    ((pfold env v root X postFields (r.1, {})).1, r.2)
+
+/-- `Y` is reached from `X` through `tgt`. -/
+inductive TReach (tgt : Stmt → List Stmt) : Stmt → Stmt → Prop
+  | refl (X : Stmt) : TReach tgt X X
+  | step {X Y Z : Stmt} : TReach tgt X Y → Z ∈ tgt Y → TReach tgt X Z
+
 end Goyang.Lemmas.IncludeAsm
